@@ -139,6 +139,11 @@ CASES: list[tuple[int, list[tuple[str, ...]], str, str | None, str, dict[str, An
     (113, [("words", "list[str]"), ("s", "str")], 'if s:\n    words.append(s)\n    words.append(s.upper())\nreturn words', 'if s:\n    words.extend((s, s.upper()))\nreturn words', R_APP.format("words"), {}),
     (113, [("nums", "list[int]"), ("p", "int")], "nums.append(p)\nnums.append(len(nums))\nreturn nums", "nums.extend((p, len(nums)))\nreturn nums", R_APP.format("nums"), {"fires": "maybe"}),
     (113, [("nums", "list[int]"), ("other", "list[int]"), ("p", "int")], "nums.append(p)\nnums.append(p + 1)\nreturn nums, other", "nums.extend((p, p + 1))\nreturn nums, other", R_APP.format("nums"), {"alias": [(0, 1)]}),
+    # three and four appends where one in the middle READS the list: whatever run refurb reports, merging the run that starts at the
+    # reported line must not move the read across an append (the rewrite is built from the reported position)
+    (113, [("nums", "list[int]"), ("p", "int"), ("q", "int")], "nums.append(p)\nnums.append(len(nums))\nnums.append(q)\nreturn nums", None, R_APP.format("nums"), {"auto113": True, "fires": "maybe"}),
+    (113, [("nums", "list[int]"), ("p", "int"), ("q", "int")], "nums.append(p)\nnums.append(q)\nnums.append(nums[0])\nnums.append(p + q)\nreturn nums", None, R_APP.format("nums"), {"auto113": True, "fires": "maybe"}),
+    (113, [("nums", "list[int]"), ("p", "int"), ("q", "int")], "nums.append(len(nums))\nnums.append(p)\nnums.append(sum(nums))\nnums.append(q)\nreturn nums", None, R_APP.format("nums"), {"auto113": True, "fires": "maybe"}),
     # guards: two different lists; something in between; not a list
     (113, [("nums", "list[int]"), ("other", "list[int]"), ("p", "int")], "nums.append(p)\nother.append(p)\nreturn nums, other", "nums.extend((p, p))\nreturn nums, other", R_APP.format(r"\w+"), {"fires": False}),
     (113, [("nums", "list[int]"), ("other", "list[int]"), ("p", "int")], "nums.append(p)\nother = nums[:]\nnums.append(p)\nreturn nums, other", "nums.extend((p, p))\nother = nums[:]\nreturn nums, other", R_APP.format(r"\w+"), {"fires": False}),
@@ -580,7 +585,23 @@ def run(ctx, covered_codes: set[int] | None = None) -> set[int]:
                 )
                 continue
             func_src = one_function(case["sig"], i, case["body"], opts)
-            if case["new"] is None:
+            if opts.get("auto113"):
+                # FURB113's advice applied WHERE IT IS REPORTED: the maximal run of consecutive `recv.append(...)` statements that
+                # starts at the reported line becomes one `recv.extend((...))`
+                fl = src_lines[case["first"] - 1 : case["last"]]
+                for dg in sorted(hits, key=lambda x: x["line"], reverse=True):
+                    k0 = dg["line"] - case["first"]
+                    m0 = re.match(r"^(\s*)([\w.]+)\.append\((.*)\)\s*$", fl[k0]) if 0 <= k0 < len(fl) else None
+                    if not m0:
+                        continue
+                    args_, k1 = [m0.group(3)], k0 + 1
+                    while k1 < len(fl) and (m1 := re.match(r"^(\s*)([\w.]+)\.append\((.*)\)\s*$", fl[k1])) and m1.group(1) == m0.group(1) and m1.group(2) == m0.group(2):
+                        args_.append(m1.group(3))
+                        k1 += 1
+                    fl[k0:k1] = [f"{m0.group(1)}{m0.group(2)}.extend(({', '.join(args_)},))"]
+                new_func = "\n".join(fl).strip("\n")
+                new_src = preamble() + "\n\n" + new_func + "\n"
+            elif case["new"] is None:
                 # concrete message(s): splice every one of them (they are disjoint sub-expressions), last position first
                 new_mod, fail = src, None
                 for dg in sorted(hits, key=lambda x: (x["line"], x["col"]), reverse=True):
